@@ -8,6 +8,7 @@ from .prune import is_call
 LEVEL = 'proof'
 TECHNIQUE = 'static analysis: value numbering of MIR def-use DAGs to non-commutative polynomial normal forms, compared with the documented formula (nothing executed)'
 RULES = {
+    'C16.R7': 'row(i) accepts exactly the row indices below the output dimension: the guard is `row < self.outdim()`',
     'C16.R6': 'the exported macro aff! builds the function its input spells (entries in written order, no sign change), arm by arm',
     'C16.R5': 'dimension guards of compose / stack assert an equality the result needs (columns of the left factor = rows of the right one; equal input dimensions for stacked outputs)',
     'C16.R4': helpers.RULE_TEXT,
@@ -18,7 +19,7 @@ RULES = {
 }
 CONTROL_REV = '078b142'  # thorough tier: the rules must still report the defects found (and since fixed) on the original tree
 CONTROLS = [('C16.R2', 'AffFuncBase::translation'), ('C16.R2', 'AffFuncBase::subtraction#aliasing')]
-FLOORS = {'C16.R6': 2, 'C16.R5': 2, 'C16.R4': 5, 'C16.R1': 36, 'C16.R2': 12, 'C16.R3': 4}
+FLOORS = {'C16.R7': 1, 'C16.R6': 2, 'C16.R5': 2, 'C16.R4': 5, 'C16.R1': 36, 'C16.R2': 12, 'C16.R3': 4}
 EXPLANATION = ('Each kernel is single-path; its returned value is a polynomial in the operands, and polynomial identities over matrices of all sizes are decidable by '
                'normal-form comparison. Constructor forms (base matrix + point writes) are compared entry-wise with the documented meaning.')
 DOES_NOT_DECIDE = 'from_row_iter/remove_rows iterator plumbing (C15), % semantics beyond element-wise, floating-point rounding'
@@ -55,6 +56,7 @@ def obligation(ctx, rule, F, q, spec, impl_filter=None, site=None):
 
 def run(ctx):
     helpers.run_for(ctx)
+    prune.check_index_guards(ctx, 'C16.R7', ['AffFuncBase::row'], dim_of={'AffFuncBase::row': 'AffFuncBase::outdim'})
     prune.check_macro_arms(ctx, 'C16.R6', ['aff_matrix_plus_vector', 'aff_row_plus_scalar'])
     prune.check_dimension_guards(ctx, 'C16.R5', ['AffFuncBase::stack', 'AffFuncBase::compose'])
     prune.check_wrappers(ctx, 'C16.R1', {'AffFuncBase::matrix_view': ('self.mat', [], 'a view of the matrix'), 'AffFuncBase::bias_view': ('self.bias', [], 'a view of the bias')})
